@@ -365,11 +365,14 @@ def gen_billing(rng, k):
     elec = rng.random() < 0.3
     if rng.random() < 0.3 and vals:
         vals[rng.randrange(len(vals))] = 0          # a bill of exactly 0: unbilled for electricity, a bill for gas
-    fmt = rng.choice(["daily-temp", "daily-temp", "hourly-temp", "bare", "from_series", "from_series"])
+    fmt = rng.choice(["daily-temp", "daily-temp", "hourly-temp", "hourly-temp-early", "bare", "from_series", "from_series"])
+    # hourly-temp-early: the hourly temperature rows start some days BEFORE the first read, at 07:00 / 18:00 / 13:00 local
+    # (the meter reads stay at local midnight): the frame's first row is not at local midnight
+    early = [rng.choice([1, 2, 3]), rng.choice([7, 18, 13])]
     last_value = rng.choice([None, None, rng.randrange(1, 2 ** 12)])     # value on the final row (convention: ignored)
     return {"kind": "billing", "zone": z, "stamps": stamps, "den": den, "vals": vals, "est": est, "elec": elec,
             "format": fmt, "style": style, "last_value": last_value,
-            "temp_align": "utc" if rng.random() < 0.25 else "local"}
+            "temp_align": "utc" if rng.random() < 0.25 else "local", "early": early}
 
 
 # =====================================================================================================
@@ -571,6 +574,11 @@ def impl_billing_class(cs):
                 bsd = tzdays.boundaries(per[0][0], last_day_start, z, extra_after=0)
                 if fmt == "daily-temp":
                     idx = bsd
+                elif fmt == "hourly-temp-early":
+                    days_before, hour = cs.get("early", [2, 7])
+                    first_day = tzdays.local_date(per[0][0], z) - dt.timedelta(days=days_before)
+                    start = tzdays.day_start(first_day, z) + 60 * hour
+                    idx = list(range(start, bsd[-1] + 23 * 60 + 1, 60))
                 else:
                     idx = list(range(per[0][0], bsd[-1] + 23 * 60 + 1, 60))
                 df = pd.DataFrame({"observed": np.nan, "temperature": 55.0}, index=tz_index(idx, z))
@@ -1399,7 +1407,8 @@ def main():
         "reporting). daily series 4-60 days with NaN/absent days. billing calendars of 6-14 periods, 25-35 / 36-70 day cycles "
         "with off-cycle reads (1-24, 36-45, 71-80 days) and boundary lengths 24/25/35/36/70/71, regular cycles, periods of "
         "critical length across a spring-forward day, data ending on a DST day, unbilled periods, estimated flags; through "
-        "clean_billing_data (both kinds), as_freq, BillingBaselineData (daily-temp / hourly-temp / bare frame, from_series). "
+        "clean_billing_data (both kinds), as_freq, BillingBaselineData (daily-temp / hourly-temp / bare frame, hourly frame whose "
+        "first row lies 1-3 days before the first read at 07:00 / 18:00 / 13:00 local, from_series). "
         "distinct = (stream, case hash); non-trivial = at least two readings")
     run.assumptions += [
         "pandas (resample on a tz-aware index, asfreq/ffill, inferred_freq) is re-specified in Model/Resample.v and tied by "
